@@ -204,6 +204,25 @@ static void caseC08pair(vh::Rng& g)
 		try { SharedDict sd; BDDBottomUpTreeAut X; X.LoadFromString(parser(), rm::toTimbuk(b, al, "B", "r"), sd.tr); std::map<std::string, St> ids; RTA t = fromDump(X.GetTopDownAut().DumpToString(serializer()), ids); if (rm::cmpLang(b, t, al) > 0) R->violation("C08/bu/pair/totopdown/language", text); }
 		catch (std::exception& e) { R->violation("C08/bu/pair/totopdown/exception", e.what()); }
 	}
+	if (g.below(static_cast<uint64_t>(R->param("cli_every", 60))) == 0)
+	{	// the same operations through `vata -r bdd-bu|bdd-td load|union|isect [-p|-s]`
+		std::string fa = R->outdir + "/" + R->tag + ".A.txt", fb = R->outdir + "/" + R->tag + ".B.txt"; writeFile(fa, rm::toTimbuk(a, al, "A")); writeFile(fb, rm::toTimbuk(b, al, "B"));
+		for (const char* enc : {"bdd-bu", "bdd-td"})
+		{
+			auto run = [&](const std::string& what, const std::string& args, RTA& out) {
+				int rc = 0; R->phase(std::string("cli ") + enc + " " + what); R->count(std::string("cli:") + enc + ":" + what); std::string txt = runVata(std::string("-r ") + enc + " " + args, rc);
+				if (rc != 0) { R->violation(std::string("C08/cli/") + enc + "/" + what + "/failed", "exit " + vh::str(rc) + ": " + txt.substr(0, 300)); return false; }
+				try { std::map<std::string, St> ids; out = fromDump(txt, ids); } catch (std::exception& e) { R->violation(std::string("C08/cli/") + enc + "/" + what + "/unparsable-output", e.what()); return false; }
+				return true; };
+			RTA r; std::string k = std::string("C08/cli/") + enc;
+			if (run("load", "load " + fa, r) && rm::cmpLang(a, r, al) > 0) R->violation(k + "/load/language", text);
+			if (run("union", "union " + fa + " " + fb, r) && rm::checkBin(a, b, r, al, true) == 0) R->violation(k + "/union/language", text);
+			if (run("isect", "isect " + fa + " " + fb, r) && rm::checkBin(a, b, r, al, false) == 0) R->violation(k + "/isect/language", text);
+			if (run("load-s", "-s load " + fb, r)) { if (rm::cmpLang(b, r, al) > 0) R->violation(k + "/load-s/language", text); std::set<St> u = rm::useful(r); for (St q : r.states()) if (!u.count(q)) { R->violation(k + "/load-s/dead-state", text); break; } }
+			if (run("load-p", "-p load " + fb, r) && rm::cmpLang(b, r, al) > 0) R->violation(k + "/load-p/language", text);
+			if (run("union-s", "-s union " + fa + " " + fb, r) && rm::checkBin(a, b, r, al, true) == 0) R->violation(k + "/union-s/language", text);
+		}
+	}
 	if (rm::refEmpty(a, al) == 0 && rm::refEmpty(b, al) == 0) { R->nontrivial(vh::fnv("pair" + text)); if (R->wantSample() && g.chance(1, 50)) R->sample("pair operations: " + kind + "\n" + text); }
 }
 
